@@ -13,8 +13,8 @@ from extract import ExtractionError, code_tokens, match_brace
 LEXER = "prqlc/prqlc-parser/src/lexer/mod.rs"
 LR = "prqlc/prqlc-parser/src/lexer/lr.rs"
 
-LABELS = ["NB1", "NB2", "NB3"]
-FUNCTIONS = ["based_digits_to_literal", "decimal_to_literal"]
+LABELS = ["NB1", "NB2", "NB3", "NB4"]
+FUNCTIONS = ["based_digits_to_literal", "decimal_to_literal", "interval_to_literal"]
 RLIMIT = 60
 
 ASSUMED = [
@@ -26,6 +26,9 @@ ASSUMED = [
     {"what": "std: str::parse::<i64> / ::<f64> are external (a parsed f64 can be infinite: `1e999`); f64::is_finite is is_finite(), uninterpreted; the text handed to them "
              "(`format!(..)` of the three parts without underscores) is opaque; chumsky's error value is opaque",
      "keys": ["fn parse_i64", "fn parse_f64", "fn f64_is_finite", "spec fn is_finite", "fn number_text", "struct LexErr", "fn lex_error"]},
+    {"what": "interval literals: str::replace('_', \"\") is without_underscores(); str::parse::<i64> of digits is Ok(n) iff the number they spell (dec_value, uninterpreted) fits an i64; "
+             "the literal that is built has the count it is given (interval_n)",
+     "keys": ["spec fn dec_value", "spec fn without_underscores", "fn strip_underscores", "fn parse_i64_dec", "spec fn interval_n", "fn make_interval"]},
 ]
 TRUSTED = [
     "oracle (C12 / C02): `-x` on an integer literal is folded by static_eval_rq_operator as `Literal::Integer(-val)`, which overflows for i64::MIN only; decimal literals cannot "
@@ -147,7 +150,45 @@ def build(X):
                   "        // a decimal literal is an integer or a finite float\n"
                   "        lit_ok(r), // @NB2\n"
                   "{\n    " + g.text + "\n}\n")
-    return PRELUDE + "pub type ValueAndUnit2 = OpaqueT;\n" + lit.text + "\n" + f.text + "\n" + g.text + "\n} // verus!\nfn main() {}\n"
+    # ---- interval literals: the closure of value_and_unit() that turns `<digits><unit>` into a literal
+    v = X.fn(LEXER, "value_and_unit")
+    m = re.search(r"\.(map|try_map)\(\s*\|\(number_str, unit_str\): \(&str, &str\)(, \w+)?\| \{", v.text)
+    if not m:
+        raise ExtractionError("value_and_unit: the closure `|(number_str, unit_str): (&str, &str)| { .. }` that builds the literal was not found")
+    v_fallible = m.group(1) == "try_map"
+    toks = code_tokens(v.text)
+    k = next(i for i, t in enumerate(toks) if t[1] == m.end() - 1)
+    e = toks[match_brace(v.text, toks, k)][1]
+    v.name = "interval_to_literal"
+    v.text = v.text[m.end():e].strip()
+    v.rewrites.append({"rule": "slice", "what": "body of the closure `|(number_str, unit_str)%s| { .. }` of value_and_unit() wrapped as fn interval_to_literal" % (m.group(2) or "")})
+    v.rewrite_re("R5", r"number_str\s*\.replace\('_', \"\"\)", "strip_underscores(number_str)", count=None, why="str::replace('_', \"\"): the digits without underscores")
+    v.rewrite_re("R5", r"(strip_underscores\(number_str\))\s*\.parse::<i64>\(\)", r"parse_i64_dec(&\1)", count=None, why="str::parse::<i64>")
+    v.rewrite_re("R5", r"Simple::new\([^()]*\)", "lex_error()", count=None, why="chumsky error value")
+    v.rewrite_re("R8", r"(parse_i64_dec\(&strip_underscores\(number_str\)\))\s*\.map_err\(\|_\w*\| ((?:[^()]|\([^()]*\))*)\)\?", r"(match \1 { Ok(verif_v) => verif_v, Err(_) => { return Err(\2); } })", count=None,
+                 why="`r.map_err(|_| e)?` is this match (std definitions of Result::map_err and `?`)")
+    v.rewrite_re("R8", r"(parse_i64_dec\(&strip_underscores\(number_str\)\))\s*\.unwrap_or\(((?:[^()]|\([^()]*\))*)\)", r"(match \1 { Ok(verif_v) => verif_v, Err(_) => \2 })", count=None,
+                 why="Result::unwrap_or is this match")
+    v.rewrite_re("R5", r"Literal::ValueAndUnit\(ValueAndUnit \{\s*n,\s*unit: unit_str\.to_string\(\),\s*\}\)", "make_interval(n, unit_str)", count=None, why="construction of the literal: its count is n (interval_n), its unit the text")
+    vu_shim = ("pub uninterp spec fn dec_value(digits: Seq<char>) -> int;      // the number decimal digits spell\n"
+               "pub uninterp spec fn without_underscores(s: Seq<char>) -> Seq<char>;\n"
+               "#[verifier::external_body] pub fn strip_underscores(s: &str) -> (r: String) ensures r@ == without_underscores(s@), { unimplemented!() }\n"
+               "#[verifier::external_body] pub fn parse_i64_dec(s: &String) -> (r: Result<i64, ()>) ensures r is Ok <==> (i64::MIN <= dec_value(s@) <= i64::MAX), r is Ok ==> r->Ok_0 == dec_value(s@), { unimplemented!() }\n"
+               "pub uninterp spec fn interval_n(l: Literal) -> int;\n"
+               "#[verifier::external_body] pub fn make_interval(n: i64, unit: &str) -> (r: Literal) ensures r is ValueAndUnit, interval_n(r) == n, { unimplemented!() }\n")
+    if v_fallible:
+        v.text = (vu_shim + "pub fn interval_to_literal(number_str: &str, unit_str: &str%s) -> (r: Result<Literal, LexErr>)\n"
+                  "    ensures\n"
+                  "        // C08: an interval literal that is accepted has the count its digits spell (no silent fallback to another interval)\n"
+                  "        r is Ok ==> interval_n(r->Ok_0) == dec_value(without_underscores(number_str@)), // @NB4\n"
+                  "{\n    " % (", %s: OpaqueT" % m.group(2)[2:] if m.group(2) else "") + v.text + "\n}\n")
+    else:
+        v.text = (vu_shim + "pub fn interval_to_literal(number_str: &str, unit_str: &str) -> (r: Literal)\n"
+                  "    ensures\n"
+                  "        // C08: an interval literal has the count its digits spell (no silent fallback to another interval)\n"
+                  "        interval_n(r) == dec_value(without_underscores(number_str@)), // @NB4\n"
+                  "{\n    " + v.text + "\n}\n")
+    return PRELUDE + "pub type ValueAndUnit2 = OpaqueT;\n" + lit.text + "\n" + f.text + "\n" + g.text + "\n" + v.text + "\n} // verus!\nfn main() {}\n"
 
 
 # ----------------------------------------------------------------------------- replay on the real compiler
@@ -186,7 +227,28 @@ def _try_float(src):
     return {"input": src, "expected": "an error, or SQL in which every number is written with digits", "observed": out[:300], "failing": bad or ((not ok) and out.startswith("PANIC")), "replay_kind": "float"}
 
 
+# interval literals: an accepted one is emitted with the count its digits spell
+INTERVALS = ["2days", "1_0weeks", "9223372036854775807years", "9223372036854775808days", "10000000000000000000days", "1_0000_0000_0000_0000_0000hours"]
+
+
+def _try_interval(lit):
+    import replaylib
+    src = "from t\nderive {d = a + %s}\n" % lit
+    m0 = re.match(r"([\d_]+)([a-z]+)$", lit)
+    want = int(m0.group(1).replace("_", ""))
+    ok, out = replaylib.compile_prql(src, "sql.generic")
+    m = re.search(r"INTERVAL\s+'?(-?\d+)'?\s+(\w+)", out) if ok else None
+    bad = out.startswith("PANIC") if not ok else (m is None or int(m.group(1)) != want)
+    return {"input": src, "expected": "an error, or an interval of %d" % want, "observed": out[:200], "failing": bad, "replay_kind": "interval", "lit": lit}
+
+
 def replay(failure):
+    if "NB4" in failure.get("obligation", ""):
+        for lit in INTERVALS:
+            r = _try_interval(lit)
+            if r["failing"]:
+                return r
+        return {"failing": False}
     if "NB3" in failure.get("obligation", ""):
         for lit in WIDE:
             r = _try_wide(lit)
@@ -211,6 +273,8 @@ def rerun(doc):
         return _try_wide(doc["lit"])
     if doc.get("replay_kind") == "float":
         return _try_float(doc["input"])
+    if doc.get("replay_kind") == "interval":
+        return _try_interval(doc["lit"])
     return _try(doc["input"])
 
 
@@ -230,5 +294,9 @@ def sweep():
     for lit in WIDE:
         r = _try_wide(lit)
         r["obligation"] = "lex_numbers.NB3"
+        out.append(r)
+    for lit in INTERVALS:
+        r = _try_interval(lit)
+        r["obligation"] = "lex_numbers.NB4"
         out.append(r)
     return out
